@@ -167,7 +167,7 @@ PROPS["C01"] = dict(
     lean_props=["SeaQ.Props.C01"],
     lean_obligations=["SeaQ.Lemmas.Scan", "SeaQ.Lemmas.SafeBasics", "SeaQ.Lemmas.Ctx", "SeaQ.Lemmas.RenderCtx"],
     technique="Lean 4 proof over the statement rendering model: for every piece list (unbounded), the values returned are the parameter pieces' values in order (no hypothesis), and under the decidable Safe discipline the engine-side reading of the parameterised text is the piece-wise one, so the placeholders outside quoted text are ?xn / $1..$n ascending, one per value; Safe itself is a theorem (render_safe, mutual structural induction over the 41 render functions) for every statement of the model without caller-supplied raw text, any bound values; model tied to the crate by differential runs of generated statements through build / build_any / build_collect*, with an independent reference-lexer oracle on the crate's output",
-    level_text="Machine-checked for every piece list, hence for the rendering of every statement of the model (any nesting): (textP ps).values = parameter pieces in order; Safe ps -> segment(text) = piece-wise items, placeholders = expectedMarks n. render_safe: for EVERY statement of the model (unbounded nesting, all five statement kinds, three dialects) whose pieces are individually well-formed (contentOK: no panic marker, representable inline constants, raw text only as digit strings, no CustomWithExpr template; bound values arbitrary) the rendering is Safe, so C01_all_statements holds with no Safe hypothesis. For statements with caller-supplied raw text Safe is evaluated by the model per generated case (plain raw text: must hold). The evidence counts how many generated cases meet the theorem's hypothesis.",
+    level_text="Machine-checked for every piece list, hence for the rendering of every statement of the model (any nesting): (textP ps).values = parameter pieces in order; Safe ps -> segment(text) = piece-wise items, placeholders = expectedMarks n. render_safe: for EVERY statement of the model (unbounded nesting, all five statement kinds, three dialects) whose pieces are individually well-formed (contentOK: no panic marker, representable inline constants, raw text (custom expressions / functions / operators / keywords) only when non-empty and free of quotes and marks, no CustomWithExpr template; bound values arbitrary) the rendering is Safe, so C01_all_statements holds with no Safe hypothesis. For statements with caller-supplied raw text Safe is evaluated by the model per generated case (plain raw text: must hold). The evidence counts how many generated cases meet the theorem's hypothesis.",
     level_note=_STMT_MODEL_NOTE,
     design_ref="§6 C01",
     scope="all statements of the model without caller-supplied raw text (theorem, no Safe hypothesis); all piece lists under Safe; generated statements for the tie",
